@@ -103,7 +103,7 @@ theorem GoodE.toPublished {m : Model (Ext K)} {an : Analyzer (Ext K)} {e : Exp (
     (htight : ∀ ρ : String → K, DomSat ρ (an.applyToDomain m.domain) → DomSat ρ m.domain)
     (h : GoodE m.domain e) : GoodE (an.applyToDomain m.domain) e :=
   ⟨fun x hx => (inScope_applyToDomain an m.domain x).mpr (h.vars x hx), h.fin,
-    fun ρ hd => h.lo ρ (htight ρ hd), fun ρ hd => h.defd ρ (htight ρ hd)⟩
+    fun ρ hd => h.nc ρ (htight ρ hd), fun ρ hd => h.defd ρ (htight ρ hd)⟩
 
 theorem logicModel_applyToDomain {m : Model (Ext K)} (an : Analyzer (Ext K))
     (htight : ∀ ρ : String → K, DomSat ρ (an.applyToDomain m.domain) → DomSat ρ m.domain)
